@@ -1616,7 +1616,7 @@ class Node:
 
         """
         realm_name = self.realm_name
-        if hasattr(message, "destination_realm"):
+        if getattr(message, "destination_realm", None) is not None:
             realm_name = message.destination_realm.decode()
 
         peer_list = None
